@@ -199,3 +199,70 @@ crate::fs_harness!(c09_dbg_box @ 8 => {
     drop(b);
     assert!(unsafe { FREED } == 1, "DBG: release counted");
 });
+
+// ---- (iv) heap balance of a failed ε-copy deserialization --------------------------------
+//
+// "When loading fails nothing is leaked": every loader runs `deserialize_eps` over the
+// backing region; the parts of a deep structure that were already built when a later part
+// fails own heap memory (the skeleton vectors) and must be released before the error is
+// returned.  The counters see every allocation and release between the reset and the check.
+use epserde::deser::{DeserializeInner, SliceWithPos};
+use epserde::ser::{SerializeInner, WriteWithPos, WriterWithPos};
+
+/// `[[Some(a)], [Some(b), None]]` as `Vec<Vec<Option<u8>>>`; the stream is cut at byte `K`
+/// (0 = not cut) and the byte at `TAGPOS` (0 = none) is replaced by an invalid tag.
+pub fn eps_fail_balance<const K: usize, const TAGPOS: usize>() {
+    let a: u8 = any();
+    let b: u8 = any();
+    let x: Vec<Vec<Option<u8>>> = vec![vec![Some(a)], vec![Some(b), None]];
+    let mut s = Sink::<64>::new();
+    let n;
+    {
+        let mut w = WriterWithPos::new(&mut s);
+        let r = SerializeInner::_serialize_inner(&x, &mut w);
+        assert!(r.is_ok(), "HARNESS: serialization succeeds");
+        n = w.pos();
+    }
+    // 8 (outer length) + 8 + 2 (first inner vector) + 8 + 2 + 1 (second)
+    assert!(n == 29, "HARNESS: stream layout as expected");
+    let mut al = Al::<64>::zero();
+    al.0 = s.buf;
+    if TAGPOS != 0 {
+        let t: u8 = any();
+        assume(t >= 2);
+        al.0[TAGPOS] = t;
+    }
+    let end = if K != 0 { K } else { n };
+    let mut sl = SliceWithPos::new(&al.0[..end]);
+    alloc_reset();
+    let r = <Vec<Vec<Option<u8>>>>::_deserialize_eps_inner(&mut sl);
+    let failed = r.is_err();
+    drop(r);
+    let (allocs, frees) = unsafe { (ALLOC_CALLS, FREE_CALLS) };
+    assert!(failed, "HARNESS: the damaged stream is refused");
+    crate::cover!(allocs >= 2, "the outer skeleton and the first inner vector were built before the failure");
+    assert!(allocs == frees, "C09: a failed eps deserialization leaks the parts it had already built (allocations != releases)");
+    #[cfg(kani)]
+    core::mem::forget(x);
+}
+macro_rules! bal {
+    ($($name:ident: $k:literal, $t:literal);* $(;)?) => {$(
+        #[cfg_attr(kani, kani::proof)] #[cfg_attr(kani, kani::unwind(5))]
+        #[cfg_attr(kani, kani::stub(std::alloc::alloc, crate::env::count_alloc_stub))]
+        #[cfg_attr(kani, kani::stub(<std::alloc::Global as core::alloc::Allocator>::deallocate, crate::env::count_dealloc_stub))]
+        pub fn $name() { eps_fail_balance::<$k, $t>() }
+    )*};
+}
+bal!(
+    // cut inside the length word of the second inner vector: the first one is complete
+    c09_eps_balance_cut20: 20, 0;
+    // invalid tag in the first element of the second inner vector
+    c09_eps_balance_tag26: 0, 26;
+    // invalid tag in the first inner vector: only the outer skeleton exists
+    c09_eps_balance_tag16: 0, 16;
+);
+/// Reachability twin: the undamaged stream is accepted.
+#[cfg_attr(kani, kani::proof)] #[cfg_attr(kani, kani::unwind(5))]
+#[cfg_attr(kani, kani::stub(std::alloc::alloc, crate::env::count_alloc_stub))]
+#[cfg_attr(kani, kani::stub(<std::alloc::Global as core::alloc::Allocator>::deallocate, crate::env::count_dealloc_stub))]
+pub fn c09_eps_balance_twin() { eps_fail_balance::<0, 0>() }
